@@ -294,3 +294,10 @@ func (c *Check) Finish(rule string) int {
 	}
 	return 0
 }
+
+// Evals returns the number of evaluated cases so far.
+func (c *Check) Evals() int {
+	c.mu.Lock()
+	defer c.mu.Unlock()
+	return c.evals
+}
